@@ -41,7 +41,7 @@ type shape struct {
 	Tail       bool // uses tail-call opcodes
 	// Deep (scheduling hint only): the compiler is expected to run into its 400 MB call-stack ceiling.
 	Deep bool
-	Desc       string
+	Desc string
 }
 
 // ---------------------------------------------------------------- guest builder
